@@ -980,9 +980,14 @@ fn fshapes(thorough: bool) -> Vec<FShape> {
         // three reductions: the value flowing into the last step depends on subgroup_x / x_index having
         // been advanced correctly after the first one
         FShape { name: "d4r1c1-a111", degree_bits: 4, rate_bits: 1, cap_height: 1, arity_bits: vec![1, 1, 1], tuples: vec![vec![21, 9], vec![21, 21], vec![20, 21], vec![20, 22], vec![16, 20], vec![5, 30, 7], vec![26, 24, 27]] },
+        // non-uniform schedules: per-step tree heights are a running difference (not a multiple of
+        // one arity), and coset indices of different depths live in ranges that overlap numerically
+        // (pairs (x, y) with x >> 2 == y >> 3 for [2, 1]; x >> 1 == y >> 3 for [1, 2])
+        FShape { name: "d4r1c1-a21", degree_bits: 4, rate_bits: 1, cap_height: 1, arity_bits: vec![2, 1], tuples: vec![vec![21, 21], vec![21, 22], vec![21, 17], vec![21, 25, 3], vec![0, 31, 16], vec![8, 12, 9], vec![5, 12], vec![12, 5], vec![1, 6], vec![6, 1], vec![13, 27, 6]] },
+        FShape { name: "d4r1c1-a12", degree_bits: 4, rate_bits: 1, cap_height: 1, arity_bits: vec![1, 2], tuples: vec![vec![7, 7], vec![7, 6], vec![5, 20], vec![20, 5], vec![3, 9, 30], vec![2, 11, 8]] },
     ];
     if thorough {
-        v.push(FShape { name: "d4r1c1-a21", degree_bits: 4, rate_bits: 1, cap_height: 1, arity_bits: vec![2, 1], tuples: vec![vec![21, 21], vec![21, 22], vec![21, 17], vec![21, 25, 3], vec![0, 31, 16], vec![8, 12, 9]] });
+        v.push(FShape { name: "d5r1c0-a321", degree_bits: 5, rate_bits: 1, cap_height: 0, arity_bits: vec![3, 2, 1], tuples: vec![vec![37, 37], vec![37, 9], vec![9, 37, 20], vec![63, 0, 31]] });
         v.push(FShape { name: "d3r1c0-a3", degree_bits: 3, rate_bits: 1, cap_height: 0, arity_bits: vec![3], tuples: vec![vec![9, 9], vec![9, 12], vec![1, 9, 10]] });
         v.push(FShape { name: "d3r1c1-a0", degree_bits: 3, rate_bits: 1, cap_height: 1, arity_bits: vec![], tuples: vec![vec![2, 2], vec![2, 3], vec![2, 13, 3]] });
         // every ordered pair of indices for the three quick shapes
